@@ -291,10 +291,13 @@ def r10_2(ctx: Ctx, rule="R10.2"):
             lst = norm(apps[0].func.value)
             pm = parents_map(rh.node)
             same_guard = [norm(t) for t, _ in guards_of(sts[0], pm)] == [norm(t) for t, _ in guards_of(apps[0], pm)]
-            ok1 = norm(sts[0].value) == "len(%s) - 1" % lst and same_guard and apps[0].lineno < sts[0].lineno \
-                and norm(apps[0].args[0]) == "%s.position" % atom
-            g = guards_of(sts[0], pm)
-            ok1 = ok1 and len(g) == 1 and g[0][1] and norm(g[0][0]) in ("%s.element != 'H'" % atom, "'H' != %s.element" % atom)
+            # new index = position taken by the atom in the list of kept positions: `len(L) - 1` right after the append,
+            # or `len(L)` right before it
+            after = norm(sts[0].value) == "len(%s) - 1" % lst and apps[0].lineno < sts[0].lineno
+            before = norm(sts[0].value) == "len(%s)" % lst and sts[0].lineno < apps[0].lineno
+            ok1 = (after or before) and same_guard and norm(apps[0].args[0]) == "%s.position" % atom
+            from ..cfg import cguards_of as _cgo, ctext as _ctx
+            ok1 = ok1 and _cgo(sts[0], pm) == [_ctx("%s.element != 'H'" % atom)]
     ctx.ob(rule, rh, en[0] if en else "index map", ok1,
            "the map old index -> new index is built in one pass over the molecule it filters: every kept atom's "
            "position is appended and its new index is the position just appended", node=en[0] if en else rh.node)
@@ -310,6 +313,16 @@ def r10_2(ctx: Ctx, rule="R10.2"):
                 g = guards_of(apps[0], pm)
                 ok2 = e0 == "%s[%s]" % (map_var, a) and e1 == b and len(g) == 1 and norm(g[0][0]) == "%s in %s" % (a, map_var) and g[0][1] \
                     and len(enum_paths(l.body)) == 2
+    if not rl and map_var:
+        # the same re-indexing as a comprehension: [(map[a], b) for a, b in pairs if a in map]
+        for c_ in [n_ for n_ in ast.walk(rh.node) if isinstance(n_, ast.ListComp)]:
+            g_ = c_.generators[0]
+            if len(c_.generators) == 1 and norm(g_.iter) == p_restr and isinstance(g_.target, ast.Tuple) and len(g_.target.elts) == 2 \
+                    and isinstance(c_.elt, ast.Tuple) and len(c_.elt.elts) == 2:
+                a, b = [norm(e) for e in g_.target.elts]
+                ok2 = [norm(e) for e in c_.elt.elts] == ["%s[%s]" % (map_var, a), b] and len(g_.ifs) == 1 \
+                    and norm(g_.ifs[0]) == "%s in %s" % (a, map_var)
+                rl = [c_]
     ctx.ob(rule, rh, rl[0] if rl else "re-indexing loop", ok2,
            "pairs are visited in input order; a pair is kept, with component 0 translated and component 1 unchanged, "
            "exactly when its fixed-side atom was kept", node=rl[0] if rl else rh.node)
@@ -363,7 +376,9 @@ def r10_4(ctx: Ctx, rule="R10.4"):
                 inits = {norm(s.targets[0]): s for s in gp.node.body if isinstance(s, ast.Assign)}
                 okl = okl and o1 in inits and o2 in inits and const_int(inits[o1].value) == 0 and const_int(inits[o2].value) == 0
                 # results accumulate in order
-                okl = okl and isinstance(call_st, ast.AugAssign) and isinstance(call_st.op, ast.Add)
+                okl = okl and ((isinstance(call_st, ast.AugAssign) and isinstance(call_st.op, ast.Add)) or
+                               (isinstance(call_st, ast.Expr) and isinstance(call_st.value, ast.Call) and call_name(call_st.value) == "extend"
+                                and call_st.value.args and call_st.value.args[0] is calls[0]))
     recognised = bool(loops) and norm(loops[0].iter) == "zip(%s.residues, %s.residues)" % (m1, m2) and isinstance(loops[0].target, ast.Tuple)
     if recognised or not loops:
         ctx.ob(rule, gp, loops[0] if loops else "pairing loop", okl,
@@ -374,13 +389,16 @@ def r10_4(ctx: Ctx, rule="R10.4"):
                "offsets; offsets not decided on this tree", undecided=True, node=loops[0])
     # per-residue pairing
     r1, r2, of1, of2 = gr.params[:4]
-    txt = {norm(s.targets[0]): s.value for s in gr.node.body if isinstance(s, ast.Assign)}
+    from ..pat import expand_single_defs as _xsd
+    txt = {norm(s.targets[0]): _xsd(gr.node, s.value, skip=()) for s in gr.node.body if isinstance(s, ast.Assign)}
     np_ = [k for k, v in txt.items() if norm(v) in ("min(len(%s), len(%s))" % (r1, r2), "min(len(%s), len(%s))" % (r2, r1))]
-    okg = bool(np_)
+    okg = bool(np_) or any("min(len(%s), len(%s))" % (r1, r2) in norm(v) or "min(len(%s), len(%s))" % (r2, r1) in norm(v) for v in txt.values())
+    np_ = np_ or ["min(len(%s), len(%s))" % (r1, r2)]
     groups = {}
     if okg:
         for k, v in txt.items():
-            if isinstance(v, ast.Call) and call_name(v) == sp.name and len(v.args) == 2 and norm(v.args[1]) == np_[0]:
+            if isinstance(v, ast.Call) and call_name(v) == sp.name and len(v.args) == 2 and (
+                    norm(v.args[1]) == np_[0] or norm(v.args[1]) in ("min(len(%s), len(%s))" % (r1, r2), "min(len(%s), len(%s))" % (r2, r1))):
                 for r in (r1, r2):
                     if norm(v.args[0]) == "list(range(len(%s)))" % r:
                         groups[r] = k
@@ -391,6 +409,20 @@ def r10_4(ctx: Ctx, rule="R10.4"):
             if norm(l.iter) == "zip(%s, %s)" % (groups[r1], groups[r2]) and isinstance(l.target, ast.Tuple):
                 g1, g2 = [norm(e) for e in l.target.elts]
                 for s in l.body:
+                    cands_ = []
+                    if isinstance(s, ast.AugAssign) and isinstance(s.value, (ast.ListComp, ast.GeneratorExp)):
+                        cands_.append(s.value)
+                    if isinstance(s, ast.Expr) and isinstance(s.value, ast.Call) and call_name(s.value) == "extend" and s.value.args \
+                            and isinstance(s.value.args[0], (ast.ListComp, ast.GeneratorExp)):
+                        cands_.append(s.value.args[0])
+                    for c in cands_:
+                        # all-to-all through itertools.product: one generator over product(group1, group2)
+                        if isinstance(c.elt, ast.Tuple) and len(c.generators) == 1 and isinstance(c.generators[0].iter, ast.Call) \
+                                and call_name(c.generators[0].iter) == "product" and isinstance(c.generators[0].target, ast.Tuple) \
+                                and len(c.generators[0].target.elts) == 2 and not c.generators[0].ifs:
+                            i, j = [norm(e) for e in c.generators[0].target.elts]
+                            comp_ok = comp_ok or ([norm(a_) for a_ in c.generators[0].iter.args] == [g1, g2] and
+                                                  [norm(e) for e in c.elt.elts] == ["%s + %s" % (i, of1), "%s + %s" % (j, of2)])
                     if isinstance(s, ast.AugAssign) and isinstance(s.value, ast.ListComp):
                         c = s.value
                         if isinstance(c.elt, ast.Tuple) and len(c.generators) == 2:
